@@ -737,6 +737,9 @@ class ExprMixin:
             base = VObj(base)          # a raw opaque-object term (element of a symbolic sequence of objects)
         if isinstance(base, VStruct):
             me = getattr(self.cur_contract, 'method_effects', None) or {}
+            if ('self.' + attr) in me and attr not in base.f:
+                # declared for the object under contract only: the event is named apart from the same method of other objects
+                return Builtin('effect:self.' + attr, lambda a, k, n, f, attr=attr: self.do_effect('self.' + attr, a, k, me['self.' + attr], n, f))
             if attr in me and attr not in base.f:
                 return Builtin('effect:' + attr, lambda a, k, n, f, attr=attr: self.do_effect(attr, a, k, me[attr], n, f))
             if attr in base.f:
@@ -801,6 +804,10 @@ class ExprMixin:
             ef = getattr(self.cur_contract, 'effects', None) or {}
             if attr in ef:
                 return Builtin('effect:' + attr, lambda a, k, n, f, attr=attr: self.do_effect(attr, a, k, ef[attr], n, f))
+            of = getattr(self.cur_contract, 'opaque_fns', None) or {}
+            if attr in of:
+                from .zsorts import VFn
+                return VFn(attr, api.Fn(of[attr][0], of[attr][1], attr))
         if type(base).__name__ == 'VFile':
             return BoundMethod(base, attr)
         if type(base).__name__ == 'SuperProxy':
